@@ -65,12 +65,24 @@ def shared_jobs(tier, s0, names=None):
                     if proto == 'cont3z' and mm == 'min' and cyc == 2:
                         continue
                     jobs.append((_scn(n, proto, mm, cyc, seed=s0), {'d': 0}))
+    # (B2) other objectives (tie-heavy plateau with exact zeros; multimodal) and an objective that edits the list it
+    #      is handed (Task.solve passes a private corrected copy, so this must be harmless)
+    for n in names:
+        for obj in ('plateau', 'multi'):
+            for proto in ('cont3z', 'cont2s', 'mo2'):
+                for mm in ('min', 'max'):
+                    for cyc in (2, 3):
+                        jobs.append((_scn(n, proto, mm, cyc, seed=s0, obj=obj), {'d': 0}))
+        for proto in ('cont3z', 'mixed3'):
+            jobs.append((_scn(n, proto, seed=s0, scribble=True), {'d': 0}))
+            for mode in ('thread', 'process'):
+                jobs.append((_scn(n, proto, seed=s0, scribble=True, mode=mode, workers=2), {'d': 0}))
     # (C) modes through the model pools: schedule / worker-assignment deviations, and worker counts
     for n in names:
         for mode in ('thread', 'process'):
             jobs.append((_scn(n, seed=s0, mode=mode, workers=2),
                          {'d': 1, 'range': 'all', 'kinds': ('sched', 'worker')}))
-            for w in (1, 4):
+            for w in (1, 3, 4, 16):
                 jobs.append((_scn(n, seed=s0, mode=mode, workers=w), {'d': 0}))
     # (D) stopping options (observational C04)
     for n in names:
@@ -83,6 +95,15 @@ def shared_jobs(tier, s0, names=None):
                 jobs.append((_scn(n, cycles=cyc, seed=s0, pop_mult=pm), {'d': 0}))
             for mode in ('thread', 'process'):
                 jobs.append((_scn(n, cycles=2, seed=s0, pop_mult=pm, mode=mode, workers=4), {'d': 0}))
+    # (E2) populations that are not multiples of the usual group counts (beyond the property's 1x..3x alphabet): exact
+    #      size is still required except for Henry Gas, which regroups into equal clusters by design
+    for n in names:
+        for add in (1, 3):
+            for cyc in (2, 3):
+                jobs.append((_scn(n, cycles=cyc, seed=s0, over={'population_size': registry.doc_population(n) + add},
+                                  odd_population=True), {'d': 0}))
+            jobs.append((_scn(n, cycles=2, seed=s0, over={'population_size': registry.doc_population(n) + add},
+                              odd_population=True, mode='thread', workers=3), {'d': 0}))
     # (F) one-parameter deviations of every algorithm parameter to its neighbouring accepted values (d = 0); the
     #     population-size equality of C10 is not claimed under them (DESIGN C10), only its bounds
     for n in names:
